@@ -124,6 +124,8 @@ def run(prog: Program, _no_c10: bool = False) -> Results:
                     and isinstance(a.targets[0].value, ast.Name) and norm(a.value) == value_param:
                 overwrites.append((n, a.targets[0].value.id))
         for n, b in overwrites:
+            if any(al.norm(ast.Name(id=b, ctx=ast.Load())).endswith(".value") for _ in (0,)):
+                continue  # `alias.value = <value>` with alias = <binding>.value is the assign-through itself, not an overwrite
             # classify how b was located: by path (attrset lookups) vs fallback targets (outer/sibling found by *name of the
             # reference*); plain copies between locals (`chosen = inherited_binding`) are followed to the definitions they copy
             ref_names = {norm(d.targets[0]) for d in ast.walk(f.node) if isinstance(d, ast.Assign) and isinstance(d.targets[0], ast.Name)
@@ -175,7 +177,19 @@ def run(prog: Program, _no_c10: bool = False) -> Results:
                         any(isinstance(c, ast.Call) and callee(c) == "_assign_through_identifier" and c.args
                             and any(al.norm(a_) == f"{x}.value" for x in by_path for a_ in c.args)
                             for c in ast.walk(t.ast))]
-            ok = bool(e_not) and bool(attempts) and cfg.all_paths_pass(n, cut_edges=e_not, cut_nodes=attempts)
+            # the attempt written in place (helper folded into the function): `ref.value = <value>` on the reference itself,
+            # made whenever a scope chain is available (`if (scopes := scopes_for_owner(…)):` — without one there is nothing
+            # to assign through)
+            scope_vars = {norm(d.targets[0]) for d in ast.walk(f.node) if isinstance(d, ast.Assign) and isinstance(d.value, ast.Call)
+                          and callee(d.value) == "scopes_for_owner"} | {d.target.id for d in ast.walk(f.node) if isinstance(d, ast.NamedExpr)
+                                                                        and isinstance(d.value, ast.Call) and callee(d.value) == "scopes_for_owner"}
+            inline_attempts = [t for t in cfg.nodes if isinstance(t.ast, ast.Assign) and isinstance(t.ast.targets[0], ast.Attribute)
+                               and t.ast.targets[0].attr == "value" and norm(t.ast.value) == value_param
+                               and any(al.norm(t.ast.targets[0].value) == f"{x}.value" for x in by_path)]
+            e_noscopes = edges_establishing(cfg, lambda a_, t_: t_ is False and ((isinstance(a_, ast.Call) and callee(a_) == "scopes_for_owner")
+                                                                                  or norm(a_) in scope_vars)) if inline_attempts else []
+            attempts = attempts + inline_attempts
+            ok = bool(e_not) and bool(attempts) and cfg.all_paths_pass(n, cut_edges=e_not + e_noscopes, cut_nodes=attempts)
             r2.ob(ok, {"site": key, "overwrite": norm(n.ast), "assign_through_attempt": [norm(t.ast)[:60] for t in attempts]})
             if not ok:
                 how = sorted({callee(d.value) for ds in by_path.values() for d in ds if isinstance(d, ast.Assign) and isinstance(d.value, ast.Call)}) or ["loop/param"]
@@ -281,9 +295,23 @@ def run(prog: Program, _no_c10: bool = False) -> Results:
             r4.instances += 1
             x = c.args[0].id
             defs = rd.defs_for_use(c, x)
+            def holds_binding(name_node) -> bool:
+                """`<name>.value` reads what a *binding* stores (not what a reference resolves to): the name is the result of a
+                binding lookup or a parameter annotated Binding"""
+                nm = name_node.id
+                for a_ in ast.walk(f.node):
+                    if isinstance(a_, ast.arg) and a_.arg == nm and a_.annotation is not None and "Binding" in norm(a_.annotation) \
+                            and "Identifier" not in norm(a_.annotation):
+                        return True
+                ds_ = rd.defs_for_use(name_node, nm)
+                return bool(ds_) and all(not isinstance(d_, str) and isinstance(d_, ast.Assign) and isinstance(d_.value, ast.Call)
+                                         and callee(d_.value) in ("_find_binding", "_find_named_binding", "_find_attrpath_leaf", "_resolve_inherited_binding", "Binding")
+                                         for d_ in ds_)
+
             via_ref = [d for d in defs if not isinstance(d, str) and isinstance(d, ast.Assign) and (
                 (isinstance(d.value, ast.Call) and callee(d.value) == "_resolve_identifier_target") or
-                (isinstance(d.value, ast.Attribute) and d.value.attr == "value" and isinstance(d.value.value, ast.Name)))]
+                (isinstance(d.value, ast.Attribute) and d.value.attr == "value" and isinstance(d.value.value, ast.Name)
+                 and not holds_binding(d.value.value)))]
             # re-assignments that only strip parentheses keep the provenance
             if not via_ref:
                 for d in defs:
